@@ -825,8 +825,9 @@ Fixpoint seqs_from (n : N) (es : list event) : bool :=
 
 (* what a fresh reader of the log finds right after a frame was handed to `append`: the text form of
    `EventLog::append` (write the line, then flush); lw_flush says the flush is unconditional *)
-Record log_write := { lw_writes_line : bool; lw_flush : bool; lw_side_flush : bool }.
-Definition wf_log_write (w : log_write) : bool := lw_writes_line w && lw_flush w && lw_side_flush w.
+Record log_write := { lw_writes_line : bool; lw_flush : bool; lw_side_flush : bool;
+                      lw_forgets_failed : bool  (* a failed write / flush leaves nothing in the writer's buffer (log_file, not log_file_unfixed) *) }.
+Definition wf_log_write (w : log_write) : bool := lw_writes_line w && lw_flush w && lw_side_flush w && lw_forgets_failed w.
 
 (* payloads taken from outside are bounded where they enter (rip_kernel::MAX_PAYLOAD_NESTING, /repo 4f61ba5): a frame
    is one object around its payload and a snapshot one array around its frames, and the reader refuses 128 levels.
@@ -895,6 +896,20 @@ Definition eo_cont : emit_order := {| eo_ops := [SLog; SStore; SSend]; eo_log_ch
 Definition eo_sess : emit_order := {| eo_ops := [SStore; SSend; SLog]; eo_log_checked := false |}.
 (* the seeded change C03-4: sidecar written before the (checked) log append *)
 Definition eo_sidecar_first : emit_order := {| eo_ops := [SStore; SLog; SSend]; eo_log_checked := true |}.
+
+(* ---------- the log's writer and a write that fails ----------
+   EventLog::append writes through a buffered writer.  As found (before /repo fix W4) the std BufWriter kept the bytes
+   of a failed write / flush and handed them to the next call that succeeded: the line of a refused append reached the
+   file later, in front of the line of the next successful append.  `log_file_unfixed` is that behaviour on the lines
+   of a history of appends (line, fate of its write); `log_file` is the fixed writer (a failed call leaves nothing
+   behind), which is what `emit_ops` uses. *)
+Fixpoint log_file_unfixed (pending : list str) (steps : list (str * bool)) : list str :=
+  match steps with
+  | [] => []
+  | (l, true) :: r => pending ++ [l] ++ log_file_unfixed [] r
+  | (l, false) :: r => log_file_unfixed (pending ++ [l]) r
+  end.
+Definition log_file (steps : list (str * bool)) : list str := map fst (filter snd steps).
 
 (* ---------- the buffer a snapshot is written from ----------
    session.rs: emit_event pushes every frame to the handle's Vec<Event>; run_session writes the snapshot from that
